@@ -151,6 +151,17 @@ def build_session(i):
     txs = [{"kind": "probe", "stream": b".\r\n", "bodies": [b""], "amb": False}]
     for t in range(ntx):
         k = rng.random()
+        if k < 0.03:
+            # a looping message: 100 or more Received/Delivered-To fields.  It is refused (554, nothing queued), but its bytes
+            # are still message bytes up to the terminator, and the next command is the one behind it (seed c05-s5)
+            hop = [b"Received: from a by b; x", b"received: (qmail 1 invoked)", b"Delivered-To: u@x.test", b"DELIVERED-TO: v@y.test", b"Received:x"]
+            lines = [rng.choice(hop) for _ in range(rng.choice([100, 100, 101, 130]))]
+            for _ in range(rng.randint(0, 3)):
+                lines.insert(rng.randrange(len(lines) + 1), b"Subject: s")
+            inner = [b"", b"NOOP", b"HELP", b"MAIL FROM:<evil@evil.test>", b"RCPT TO:<victim@mx.test>", b"DATA", b"inner body", b"..stuffed", b"a\rb"]
+            s_ = b"".join(l + b"\r\n" for l in lines + inner) + TERM
+            txs.append({"kind": "looping", "stream": s_, "bodies": [], "amb": False})
+            continue
         if k < 0.40:
             m = gen_lf_message(rng)
             s = smtpdata.ref_encode(m)
@@ -198,6 +209,9 @@ def build_session(i):
                 expect.append("451")
                 expect_tx.append(t)
                 dead = True
+            elif tx["kind"] == "looping":
+                expect.append("554")
+                expect_tx.append(t)
             else:
                 expect.append("250")
                 expect_tx.append(t)
@@ -387,7 +401,8 @@ def run_case(b, home, rec, i, res, attempt=0):
                         "a completed envelope reached the queue for a stream with a bare LF (or for the commands behind it)",
                         wit(t_lf))
             return
-        if len(recs) > len(want) + 1:
+        nloop = sum(1 for tx in txs if tx["kind"] == "looping")     # each leaves a started, never completed submission
+        if len(recs) > len(want) + 1 + nloop:
             res.violate("C05/bin/bare-lf-session-continued/bare-lf", "transactions behind the 451 were started", wit(t_lf))
             return
     if len(done) != len(want):
